@@ -350,7 +350,9 @@ def run_witness(u, repo, bdir):
         wit = wit[:6] + ([f"... and {n_wit - 6} more WITNESS lines"] if n_wit > 6 else [])
         explored = [l[l.index("explored:"):].strip() for l in wsrc.split("\n") if "explored:" in l]
         return {"found": bool(wit), "witness_lines": wit, "output": out[-6000:], "cmd": " ".join(cmd), "rc": rc,
-                "ran": bool(explored) or bool(wit), "explored": explored[:4]}
+                # the search ran if it reported what it explored, printed a witness, or the test binary ran to completion
+                # (older searches print no `explored:` line)
+                "ran": bool(explored) or bool(wit) or "test result: ok." in wsrc, "explored": explored[:4]}
     finally:
         shutil.rmtree(sc, ignore_errors=True)
 
@@ -500,12 +502,23 @@ def main(argv):
             wit = run_witness(u, a.repo, bdir)
             witness_runs.append({"unit": r["unit"], "ran": wit.get("ran", False), "found": wit.get("found", False), "explored": wit.get("explored", [])})
             if not wit.get("ran"):
-                print(f"WITNESS-NOT-RUN property={prop} unit={r['unit']} (the witness search produced no `explored:` line: build failure or time-out; see evidence)")
+                print(f"WITNESS-NOT-RUN property={prop} unit={r['unit']} (the witness search did not run to completion: build failure or time-out; see evidence)")
             if wit.get("found"):
                 names = (u.get("contract_by_property") or {}).get(prop) or u.get("contract") or ["(unit)"]
                 ob = {"name": f"{u['id']}::{names[0]}", "contract": True, "status": "refuted",
                       "note": "every obligation of the unit is discharged, but the witness search replayed a failing input on the real code (outside what the contract abstracts: floating point, an assumed callee contract, or the witness itself)"}
                 k = match_known(known, prop, r, ob)
+                if not k:
+                    # a witness file shared by several units (one search, several contracts) replays the inputs of a
+                    # listed finding of ANOTHER unit of this property: matched by the listed inputs alone - every
+                    # replayed line must be one of them, anything else stays a violation
+                    lines = [l for l in wit.get("witness_lines", []) if l.startswith("WITNESS")]
+                    for kk in known:
+                        if kk.get("property") == prop and kk.get("witness_only"):
+                            allowed = [x for x in kk["witness_only"].split("|") if x]
+                            if lines and all(any(x in l for x in allowed) for l in lines) and not any(l.startswith("...") for l in wit.get("witness_lines", [])):
+                                k = kk
+                                break
                 if k:
                     known_hits.append((k, ob))
                     continue
@@ -581,8 +594,14 @@ def main(argv):
     os.makedirs(os.path.join(out_root, "evidence"), exist_ok=True)
     json.dump(ev, open(os.path.join(out_root, "evidence", prop + ".json"), "w"), indent=1)
 
+    seen_known = set()
     for k, ob in known_hits:
-        print(f"KNOWN-FINDING: property={prop} {ob['name']} {k.get('what', k['_line'])}")
+        # one line per listed finding (the obligation named in the file first; a shared witness search of another unit
+        # that replays the same inputs does not repeat it)
+        if k["_line"] in seen_known:
+            continue
+        seen_known.add(k["_line"])
+        print(f"KNOWN-FINDING: property={prop} {k.get('obligation', ob['name'])} {k.get('what', k['_line'])}")
     for rp, ob, wit in violations:
         tail = "" if wit.get("found") else " no-failing-input-found"
         print(f"VIOLATION property={prop} replay={rp}{tail}")
